@@ -53,7 +53,7 @@ func c09ReaderConsumption(r *core.R, m *pbfModel) {
 			}
 			switch {
 			case idx < 0:
-			case isPkgFunc(fn, "io", "ReadFull") && idx == 0:
+			case idx == 0 && func() bool { _, ok := pbfFullRead(info, p); return ok }():
 				return
 			case fn != nil && m.funcs[fn] != nil:
 				tf := m.funcs[fn]
